@@ -21,7 +21,7 @@ def run(res, args):
         res.corr_notes.append("building the rtcmfilter test binary failed:\n" + outf[-3000:])
         return res.finish()
     rng = common.rng_for(res.seed, "c10")
-    mult = 1 if res.tier == "quick" else 8
+    mult = 1 if res.tier == "quick" else 30
     ins = []
     for _ in range(120 * mult):
         r = rng.random()
